@@ -37,6 +37,10 @@ def main():
         hs.append(H("lcm%s/product-vs-gcd-contract" % w, F, "h_lcm%s_contract" % w, SRCS, defs=D, unwind=2,
                     instrument=("--replace-calls", "a_u%s_gcd:stub_gcd%s" % (w, w)),
                     note="gcd replaced by any value meeting the gcd post-condition"))
+    for sh in (16, 32, 48):
+        D2 = ("GCD_BITS=%d" % (gb - 2), "GCD_SHIFT=%d" % sh)
+        hs.append(H("gcd64/shifted-by-%d" % sh, F, "h_gcd64_shifted", SRCS, defs=D2, unwind=20))
+        hs.append(H("gcd32/shifted-by-%d" % (sh // 2), F, "h_gcd32_shifted", SRCS, defs=D2, unwind=20))
     hs.append(H("gcd-edges", F, "h_gcd_edges", SRCS, unwind=4))
     hs.append(H("rev", F, "h_rev", SRCS, unwind=2))
     hs.append(H("endian", F, "h_endian", SRCS, unwind=9))
@@ -44,7 +48,7 @@ def main():
                           "a_u8_rev", "a_u16_rev", "a_u32_rev", "a_u64_rev",
                           "a_u{16,32,64}_{get,set}{l,b}"])
     res.bounds = {"isqrt": "all x < 2^%d (both widths) + %d-wide windows around every 2^k up to the type maximum" % (B, 2 * W + 1),
-                  "gcd/lcm": "gcd operands < 2^%d, lcm operands < 2^%d, lcm-vs-gcd-contract products < 2^%d; plus full-width identities with 0, 1, equal operands and scaled coprime pairs" % (gb, lb, lpb),
+                  "gcd/lcm": "gcd operands < 2^%d, lcm operands < 2^%d, lcm-vs-gcd-contract products < 2^%d; plus full-width identities with 0, 1, equal operands, and operands shifted to bit positions 16/32/48 (8/16/24 for 32 bit)" % (gb, lb, lpb),
                   "rev/endian": "full width", "unwind": "10 Newton steps / 20 Euclid steps, unwinding assertions on"}
     res.outside = ["isqrt for x >= 2^%d away from the power-of-two windows" % B, "gcd/lcm operands >= 2^%d in general position" % gb]
     res.assumptions = ["CBMC's bit-precise semantics of C (goto-cc build of src/math.c, src/a.c with the generated config header)",
